@@ -216,6 +216,14 @@ theorem cursor_forward_algorithm {K V : Type} (cmp : K → K → Ordering) (h : 
     collectFwd cmp sh A B n (mFirst cmp sh A B) = fwdRun cmp sh A B :=
   Lemmas.forward_run_eq h sh A B hA hB A B [] [] n rfl rfl hn
 
+/-- `Seek k` followed by `Next`s emits the same view from the first key `≥ k` on. -/
+theorem cursor_seek_forward_algorithm {K V : Type} (cmp : K → K → Ordering) (h : OrdLaws cmp)
+    (sh : K → Bool) (A B : List (K × V)) (hA : SortedKeys cmp A) (hB : SortedKeys cmp B) (k : K)
+    (n : Nat) (hn : A.length + B.length ≤ n) :
+    collectFwd cmp sh A B n (mSeek cmp sh A B k) =
+      fwdRun cmp sh (Lemmas.fromGE cmp k A) (Lemmas.fromGE cmp k B) :=
+  Lemmas.seek_run_eq h sh A B hA hB k n hn
+
 /-- `cursor_backward`: `Last` followed by `Prev`s emits the same merge of the reversed lists under
 the reversed order. -/
 theorem cursor_backward {K V : Type} (cmp : K → K → Ordering) (sh : K → Bool) (A B : List (K × V)) :
